@@ -144,8 +144,11 @@ def gen_dist(rng, n):
         kind = rng.choice(["pair", "pair", "self", "scaled"])
         p = Q.rball(rng, dim)
         qq = Q.rball(rng, dim) if kind == "pair" else p
+        s_, t_ = Q.rq(rng, 40, 9, nonzero=True), Q.rq(rng, 40, 9, nonzero=True)
+        if rng.random() < 0.3:                              # representatives of very different magnitude (10^-9 .. 10^9)
+            s_ *= F(10) ** rng.randint(-9, 9); t_ *= F(10) ** rng.randint(-9, 9)
         yield {"dim": dim, "kind": kind, "p": [Q.qs(x) for x in p], "q": [Q.qs(x) for x in qq],
-               "s": Q.qs(Q.rq(rng, 40, 9, nonzero=True)), "t": Q.qs(Q.rq(rng, 40, 9, nonzero=True))}
+               "s": Q.qs(s_), "t": Q.qs(t_)}
 
 
 def _dist_vecs(inp):
@@ -253,6 +256,8 @@ def gen_metric(rng, n):
         dim = rng.choice([1, 2, 3, 4, 5])
         # each point is stored through projective coordinates with its own non-zero scale of either sign
         scales = [rng.choice([-1, 1]) * rng.uniform(0.1, 10) if rng.random() < 0.5 else 1.0 for _ in range(3)]
+        if rng.random() < 0.3:                              # tiny / huge representatives: no absolute threshold may decide a branch
+            scales = [sc * 10.0 ** rng.randint(-9, 9) for sc in scales]
         yield {"dim": dim, "pts": fball(rng, dim, [3], 0.99), "scales": scales}
 
 
@@ -595,6 +600,143 @@ def judge_pack(inp, obs, lr):
     return None
 
 
+# ---- oracle: every accepted name of a model and every entry point agree ------------------------------
+# The Model enum documents aliases compared case-insensitively; Point(c, model=m), p.coords(m), p.coords(m, data),
+# the per-model methods and the module-level functions are alternative entry points to one conversion.
+def _alias_names():
+    out = {}
+    for name, member in H.Model.__members__.items():
+        out.setdefault(member.value, []).append(name)
+    return out
+
+
+def gen_alias(rng, n):
+    names = _alias_names()
+    for _ in range(n):
+        dim = rng.choice([1, 2, 3])
+        canon = rng.choice(MODELS)
+        alias = rng.choice(names[canon])
+        form = rng.choice(["enum", "lower", "upper", "title", "mixed"])
+        k = rng.choice([0, 2, 3])
+        yield {"dim": dim, "canon": canon, "alias": alias, "form": form, "k": k,
+               "pts": fball(rng, dim, [max(k, 1)], 0.95), "scale": rng.choice([1.0, -2.5, 0.3])}
+
+
+def _alias_value(inp):
+    a = inp["alias"]
+    return {"enum": getattr(H.Model, a), "lower": a.lower(), "upper": a.upper(), "title": a.title(),
+            "mixed": "".join(c.upper() if i % 2 else c.lower() for i, c in enumerate(a))}[inp["form"]]
+
+
+def run_alias(inp):
+    k = np.array(inp["pts"] if inp["k"] else inp["pts"][0])
+    m, canon = _alias_value(inp), inp["canon"]
+    P = H.Point(np.concatenate([np.ones(k.shape[:-1] + (1,)), k], axis=-1) * inp["scale"], model="projective")
+    ref = np.array(P.coords(canon), dtype=float)
+    got = np.array(P.coords(m), dtype=float)                       # read through the alias
+    out = {"read": err(got, ref) if got.shape == ref.shape and finite(got) else float("inf")}
+    Q1 = H.Point(ref.copy(), model=m)                              # construct through the alias
+    out["construct"] = err(_klein_of(Q1), k) if _klein_of(Q1).shape == k.shape else float("inf")
+    Q2 = H.Point(np.concatenate([np.ones(k.shape[:-1] + (1,)), 0 * k], axis=-1), model="projective")
+    Q2.coords(m, ref.copy())                                       # get-and-set through the alias
+    out["set"] = err(_klein_of(Q2), k) if _klein_of(Q2).shape == k.shape else float("inf")
+    meth = {"projective": "projective_coords", "hyperboloid": "hyperboloid_coords", "klein": "kleinian_coords",
+            "poincare": "poincare_coords", "halfspace": "halfspace_coords"}[canon]
+    if hasattr(P, meth):                                           # the per-model method is the same conversion
+        via = np.array(getattr(P, meth)(), dtype=float)
+        ok = via.shape == ref.shape and (all(proj_close(x, y, 1e-9) for x, y in zip(via.reshape(-1, via.shape[-1]), ref.reshape(-1, ref.shape[-1])))
+                                         if canon in ("projective", "hyperboloid") else close(via, ref, 1e-9))
+        out["method"] = 0.0 if ok else float("inf")
+    return out
+
+
+def judge_alias(inp, obs, lr):
+    if "exc" in obs:
+        return {"expected": "every documented model name is accepted", "observed": obs,
+                "tags": {"exc": obs["exc"], "alias": inp["alias"], "form": inp["form"]}}
+    for k, v in obs.items():
+        if v > 1e-7:
+            return {"expected": f"{k} through the name {inp['alias']!r} ({inp['form']}) = through {inp['canon']!r}", "observed": obs,
+                    "tags": {"alias": inp["alias"], "form": inp["form"], "entry": k}}
+    return None
+
+
+# ---- oracle: composites assembled from point objects ---------------------------------------------------
+# Point([P1, P2, ...]) (a list of point objects, possibly of different dtypes, scales and origins) is the composite of
+# the same points built from one float coordinate array, in the given order.
+def gen_assemble(rng, n):
+    for _ in range(n):
+        dim = rng.choice([1, 2, 3])
+        k = rng.choice([1, 2, 3, 4])
+        members = []
+        for _ in range(k):
+            kind = rng.choice(["int_proj", "int_origin", "float_klein", "float_proj", "f32", "float_poincare", "int_halfspace"])
+            if kind == "int_proj":
+                while True:
+                    v = [rng.randint(-6, 6) for _ in range(dim)]; t = rng.choice([-1, 1]) * rng.randint(1, 9)
+                    if t * t > sum(x * x for x in v):
+                        break
+                members.append({"kind": kind, "data": [t] + v})
+            elif kind == "int_origin":
+                members.append({"kind": kind, "data": [0] * dim})
+            elif kind == "int_halfspace":
+                members.append({"kind": kind, "data": [rng.randint(-4, 4) for _ in range(dim - 1)] + [rng.randint(1, 5)]})
+            elif kind == "float_proj":
+                p = fball(rng, dim, [1], 0.95)[0]; sc = rng.choice([-1, 1]) * rng.uniform(0.2, 5)
+                members.append({"kind": kind, "data": [sc] + [sc * x for x in p]})
+            else:
+                members.append({"kind": kind, "data": fball(rng, dim, [1], 0.95)[0]})
+        yield {"dim": dim, "members": members, "warm": rng.random() < 0.5}
+
+
+def _member(mb):
+    kd, d = mb["kind"], mb["data"]
+    if kd == "int_proj":
+        return H.Point(np.array(d, dtype=np.int64), model="projective")
+    if kd == "int_origin":
+        return H.Point(np.array(d, dtype=np.int64), model="klein")
+    if kd == "int_halfspace":
+        return H.Point(np.array(d, dtype=np.int64), model="halfspace")
+    if kd == "float_proj":
+        return H.Point(np.array(d, dtype=float), model="projective")
+    if kd == "f32":
+        return H.Point(np.array(d, dtype=np.float32), model="klein")
+    if kd == "float_poincare":
+        return H.Point(np.array(d, dtype=float), model="poincare")
+    return H.Point(np.array(d, dtype=float), model="klein")
+
+
+def run_assemble(inp):
+    objs = [_member(mb) for mb in inp["members"]]
+    truth = np.array([_klein_of(_member(mb)) for mb in inp["members"]])      # each member on its own, fresh
+    if inp["warm"]:
+        for o in objs:                                                      # members that already answered queries
+            o.coords("hyperboloid"); o.distance(H.Point(np.zeros(inp["dim"]), model="klein"))
+    comp = H.Point(objs)
+    k = _klein_of(comp)
+    if k.shape != truth.shape or not finite(k):
+        return {"err": float("inf"), "shape": list(k.shape), "want": list(truth.shape)}
+    e = err(k, truth)
+    ref = H.Point(truth.copy(), model="klein")
+    o = H.Point(np.zeros(inp["dim"]), model="klein")
+    d1, d2 = np.asarray(comp.distance(o), dtype=float), np.asarray(ref.distance(o), dtype=float)
+    e = max(e, err(d1, d2) if d1.shape == d2.shape and finite(d1) else float("inf"))
+    after = np.array([_klein_of(x) for x in objs])                          # the members are still where they were
+    e = max(e, err(after, truth))
+    return {"err": float(e), "klein": k.tolist(), "truth": truth.tolist()}
+
+
+def judge_assemble(inp, obs, lr):
+    if "exc" in obs:
+        return {"expected": "a composite from a list of point objects", "observed": obs,
+                "tags": {"exc": obs["exc"], "kinds": [m["kind"] for m in inp["members"]]}}
+    tol = 1e-3 if any(m["kind"] == "f32" for m in inp["members"]) else 1e-6
+    if obs["err"] > tol:
+        return {"expected": "member i of Point([P1, P2, ...]) is P_i (same Klein coordinates, same distances), members untouched",
+                "observed": obs, "tags": {"kinds": [m["kind"] for m in inp["members"]], "warm": inp["warm"]}}
+    return None
+
+
 CLAUSES = [
     Clause("coords_corr", "corr", gen_coords, run_coords, judge_coords, lean=lean_coords2,
            site="hyperbolic.Point.coords", budget={"quick": 150, "thorough": 20000},
@@ -620,4 +762,12 @@ CLAUSES = [
            budget={"quick": 200, "thorough": 6000},
            what="whole-number / dyadic coordinates in every model handed over as Python ints, nested lists, tuples, int32/int64/float32 "
                 "arrays, strided, Fortran-ordered and read-only views: same point and distances as from the float64 array"),
+    Clause("alias_oracle", "oracle", gen_alias, run_alias, judge_alias, site="hyperbolic.Model / Point.coords / Point.__init__ (names and entry points)",
+           budget={"quick": 150, "thorough": 4000},
+           what="every documented model name (enum member, alias, any letter case) through every entry point (read, construct, get-and-set, "
+                "per-model method) is the same conversion as the canonical name"),
+    Clause("assemble_oracle", "oracle", gen_assemble, run_assemble, judge_assemble, site="hyperbolic.Point([P1, P2, ...])",
+           budget={"quick": 150, "thorough": 4000},
+           what="composites assembled from a list of point objects of different dtypes (int first, float later, float32), models, scales and "
+                "query histories: member i is P_i, members untouched"),
 ]
